@@ -109,8 +109,8 @@ double BIAS(dvector *ytrue, dvector *ypred)
 {
   size_t i, ny;
   double sum_yi, sum_xi;
-  double yavg;
-  sum_yi = sum_xi = yavg = 0.f;
+  double yavg, pavg;
+  sum_yi = sum_xi = yavg = pavg = 0.f;
   ny = 0;
   for(i = 0; i < ytrue->size; i++){
     if(FLOAT_EQ(ytrue->data[i], MISSING, 1e-1)){
@@ -118,10 +118,12 @@ double BIAS(dvector *ytrue, dvector *ypred)
     }
     else{
       yavg += ytrue->data[i];
+      pavg += ypred->data[i];
       ny+=1;
     }
   }
   yavg /= (double)ny;
+  pavg /= (double)ny;
 
   /*ypredaverage /= (double)my->row;*/
   for(i = 0; i < ytrue->size; i++){
@@ -129,8 +131,8 @@ double BIAS(dvector *ytrue, dvector *ypred)
       continue;
     }
     else{
-      sum_yi+=(ypred->data[i]*(ytrue->data[i]-yavg));
-      sum_xi+=(ytrue->data[i]*(ytrue->data[i]-yavg));
+      sum_yi+=((ypred->data[i]-pavg)*(ytrue->data[i]-yavg));
+      sum_xi+=((ytrue->data[i]-yavg)*(ytrue->data[i]-yavg));
     }
   }
   /*sum_yi/sum_xi = m */
